@@ -29,7 +29,7 @@ ParamVerdict(p) ==
 RECURSIVE FirstBad(_, _)
 FirstBad(ps, i) == IF i > Len(ps) THEN "ok"
                    ELSE LET v == ParamVerdict(ps[i]) IN IF v # "ok" THEN v ELSE FirstBad(ps, i + 1)
-PositionVerdict(o) == IF o.unstable THEN "shape-depends-on-arguments" ELSE FirstBad(o.params, 1)
+PositionVerdict(o) == IF o.unstable THEN "rendering-depends-on-something-else-than-its-own-records" ELSE FirstBad(o.params, 1)
 
 \* ---- C10: serialize_result (bsd.py), transcribed -------------------------------------------------
 \* END words: e0 = error, e1 = return value.  KnownErr = the error numbers that have a name.
